@@ -19,6 +19,7 @@ def _copy(a):
 
 @scenario
 def ssprk3_stretching(ctx, shape):
+    ctx.prefer = "nlsat"
     _, spne, _, _ = sopht_modules()
     shape = tuple(shape)
     vs = (3, *shape)
